@@ -8,21 +8,24 @@ use std::collections::hash_map::DefaultHasher;
 use std::hash::{Hash, Hasher};
 use std::time::Instant;
 
-const CLASSES: &[&str] = &["built_from_utc", "built_from_local", "local_refused", "headroom_reading", "replace_ok", "replace_none", "replace_out_of_range", "headroom_either", "step_ok", "step_none", "with_time_refused", "pair_equal_instants", "pair_ordered", "hash_equal"];
-const FROM_UTC: usize = 0;
-const FROM_LOCAL: usize = 1;
-const LOCAL_REF: usize = 2;
-const HEADROOM: usize = 3;
-const RP_OK: usize = 4;
-const RP_NONE: usize = 5;
-const RP_OOR: usize = 6;
-const EITHER: usize = 7;
-const ST_OK: usize = 8;
-const ST_NONE: usize = 9;
-const WT_REF: usize = 10;
-const P_EQ: usize = 11;
-const P_ORD: usize = 12;
-const H_EQ: usize = 13;
+const CLASSES: &[&str] = &["zone_gap_refused", "zone_fold_either", "zone_single", "built_from_utc", "built_from_local", "local_refused", "headroom_reading", "replace_ok", "replace_none", "replace_out_of_range", "headroom_either", "step_ok", "step_none", "with_time_refused", "pair_equal_instants", "pair_ordered", "hash_equal"];
+const Z_GAP: usize = 0;
+const Z_FOLD: usize = 1;
+const Z_SINGLE: usize = 2;
+const FROM_UTC: usize = 3;
+const FROM_LOCAL: usize = 4;
+const LOCAL_REF: usize = 5;
+const HEADROOM: usize = 6;
+const RP_OK: usize = 7;
+const RP_NONE: usize = 8;
+const RP_OOR: usize = 9;
+const EITHER: usize = 10;
+const ST_OK: usize = 11;
+const ST_NONE: usize = 12;
+const WT_REF: usize = 13;
+const P_EQ: usize = 14;
+const P_ORD: usize = 15;
+const H_EQ: usize = 16;
 
 /// a reading: (day number, second of day, nanosecond field incl. leap)
 type Rd = (i64, u32, u32);
@@ -355,6 +358,172 @@ fn offset_constructors(acc: &mut Acc) {
     }
 }
 
+// ---- a zone with one skipped and one repeated hour: the generic code paths FixedOffset never takes ----------------
+// +01:00 until 2021-03-28T01:00:00Z, +02:00 until 2021-10-31T01:00:00Z, +01:00 afterwards
+const GF_T1: i64 = 1_616_893_200;
+const GF_T2: i64 = 1_635_642_000;
+#[derive(Clone, Copy, Debug, PartialEq, Eq)]
+struct GapFold;
+#[derive(Clone, Copy, Debug, PartialEq, Eq)]
+struct GfOff(i32);
+impl chrono::Offset for GfOff {
+    fn fix(&self) -> FixedOffset {
+        FixedOffset::east_opt(self.0).unwrap()
+    }
+}
+fn gf_offset_at(utc_secs: i64) -> i32 {
+    if utc_secs >= GF_T1 && utc_secs < GF_T2 {
+        7200
+    } else {
+        3600
+    }
+}
+/// the readings of a wall clock (seconds since the epoch read as if it were UTC): earliest instant first
+fn gf_resolve(wall_secs: i64) -> Vec<(i64, i32)> {
+    let mut v: Vec<(i64, i32)> = [7200, 3600].iter().map(|&o| (wall_secs - o as i64, o)).filter(|&(u, o)| gf_offset_at(u) == o).collect();
+    v.sort();
+    v
+}
+impl TimeZone for GapFold {
+    type Offset = GfOff;
+    fn from_offset(_: &GfOff) -> Self {
+        GapFold
+    }
+    fn offset_from_local_date(&self, _: &chrono::NaiveDate) -> MappedLocalTime<GfOff> {
+        MappedLocalTime::None
+    }
+    fn offset_from_local_datetime(&self, local: &NaiveDateTime) -> MappedLocalTime<GfOff> {
+        let r = gf_resolve(local.and_utc().timestamp());
+        match r.len() {
+            0 => MappedLocalTime::None,
+            1 => MappedLocalTime::Single(GfOff(r[0].1)),
+            _ => MappedLocalTime::Ambiguous(GfOff(r[0].1), GfOff(r[1].1)),
+        }
+    }
+    fn offset_from_utc_date(&self, _: &chrono::NaiveDate) -> GfOff {
+        GfOff(3600)
+    }
+    fn offset_from_utc_datetime(&self, utc: &NaiveDateTime) -> GfOff {
+        GfOff(gf_offset_at(utc.and_utc().timestamp()))
+    }
+}
+
+/// One step of every field replacement and calendar step from states around the gap and the fold. The statement says
+/// these act on the wall-clock reading: a result must show exactly the new wall clock and be one of its readings in the
+/// zone; a wall clock with exactly one reading must be produced; a skipped one cannot be; a repeated one may be
+/// refused or answered with either reading.
+fn zone_with_gap_and_fold(acc: &mut Acc) {
+    let tz = GapFold;
+    let mut starts: Vec<i64> = vec![];
+    for t in [GF_T1, GF_T2] {
+        for h in -6i64..=6 {
+            for d in [-1i64, 0, 1, 1799, 1800] {
+                starts.push(t + h * 1800 + d);
+            }
+        }
+        for days in [-31i64, -30, -7, -1, 1, 7, 28, 30, 31, 217, -217, 365, -365] {
+            for d in [-3600i64, -1, 0, 1800, 3600, 5400] {
+                starts.push(t + days * 86400 + d);
+            }
+        }
+    }
+    starts.sort();
+    starts.dedup();
+    for &u in &starts {
+        for nano in [0u32, 999_999_999] {
+            let ndt = DateTime::from_timestamp(u, nano).unwrap().naive_utc();
+            let dt: DateTime<GapFold> = tz.from_utc_datetime(&ndt);
+            let off = gf_offset_at(u);
+            let w = u + off as i64; // wall clock as seconds
+            acc.states += 1;
+            acc.transitions += 1;
+            let wl = DateTime::from_timestamp(w, nano).unwrap().naive_utc();
+            if dt.naive_local() != wl || dt.offset().0 != off || dt.naive_utc() != ndt || (dt.hour(), dt.minute(), dt.second()) != ((w.rem_euclid(86400) / 3600) as u32, (w.rem_euclid(3600) / 60) as u32, w.rem_euclid(60) as u32) {
+                acc.violation("DateTime<zone>:reading", format!("wall clock of {:?} in the gap/fold zone", ndt), format!("{:?} at {}", wl, off), format!("{:?} at {:?}", dt.naive_local(), dt.offset()));
+                continue;
+            }
+            let (wz, ws) = (w.div_euclid(86400), w.rem_euclid(86400) as u32);
+            let (y, m, d) = civil_from_days(wz);
+            let at = |z: i64, s: u32, n: u32| -> Option<(i64, u32)> { Some((z * 86400 + s as i64, n)) };
+            let date = |yy: i64, mm: u32, dd: u32| -> Option<(i64, u32)> { if mm >= 1 && mm <= 12 && dd >= 1 && dd <= days_in_month(yy, mm) { at(days_from_civil(yy, mm, dd), ws, nano) } else { None } };
+            let months = |k: i64| -> Option<(i64, u32)> {
+                let ym = y * 12 + m as i64 - 1 + k;
+                let (ty, tm) = (ym.div_euclid(12), ym.rem_euclid(12) as u32 + 1);
+                date(ty, tm, d.min(days_in_month(ty, tm)))
+            };
+            let mut cases: Vec<(String, Result<Option<DateTime<GapFold>>, String>, Option<(i64, u32)>)> = vec![];
+            for h in 0..24u32 {
+                cases.push((format!("with_hour({})", h), guard(|| dt.with_hour(h)), at(wz, h * 3600 + ws % 3600, nano)));
+            }
+            for x in [0u32, 29, 30, 59] {
+                cases.push((format!("with_minute({})", x), guard(|| dt.with_minute(x)), at(wz, ws / 3600 * 3600 + x * 60 + ws % 60, nano)));
+                cases.push((format!("with_second({})", x), guard(|| dt.with_second(x)), at(wz, ws / 60 * 60 + x, nano)));
+            }
+            cases.push(("with_nanosecond(5)".into(), guard(|| dt.with_nanosecond(5)), at(wz, ws, 5)));
+            for x in [1u32, 27, 28, 29, 30, 31] {
+                cases.push((format!("with_day({})", x), guard(|| dt.with_day(x)), date(y, m, x)));
+                cases.push((format!("with_day0({})", x - 1), guard(|| dt.with_day0(x - 1)), date(y, m, x)));
+            }
+            for x in [2u32, 3, 4, 10, 11] {
+                cases.push((format!("with_month({})", x), guard(|| dt.with_month(x)), date(y, x, d)));
+            }
+            for x in [86u32, 87, 88, 303, 304, 305] {
+                cases.push((format!("with_ordinal({})", x), guard(|| dt.with_ordinal(x)), from_ordinal(y, x).and_then(|(mm, dd)| date(y, mm, dd))));
+            }
+            for yy in [2020i64, 2021, 2022] {
+                cases.push((format!("with_year({})", yy), guard(|| dt.with_year(yy as i32)), date(yy, m, d)));
+            }
+            for (s2, n2) in [(3600u32, 0u32), (5400, 0), (7200, 0), (9000, 1), (10800, 0), (86399, 999_999_999)] {
+                cases.push((format!("with_time({} s, {} ns)", s2, n2), guard(|| dt.with_time(mk_time(s2, n2)).single()), at(wz, s2, n2)));
+            }
+            for k in [0u64, 1, 2, 7, 30, 31, 217, 365] {
+                cases.push((format!("checked_add_days({})", k), guard(|| dt.checked_add_days(Days::new(k))), at(wz + k as i64, ws, nano)));
+                cases.push((format!("checked_sub_days({})", k), guard(|| dt.checked_sub_days(Days::new(k))), at(wz - k as i64, ws, nano)));
+            }
+            for k in [0u32, 1, 5, 7, 12] {
+                cases.push((format!("checked_add_months({})", k), guard(|| dt.checked_add_months(Months::new(k))), months(k as i64)));
+                cases.push((format!("checked_sub_months({})", k), guard(|| dt.checked_sub_months(Months::new(k))), months(-(k as i64))));
+            }
+            for (name, got, want) in cases {
+                acc.transitions += 1;
+                let got = match got {
+                    Ok(g) => g,
+                    Err(p) => {
+                        acc.violation("DateTime<zone>:panic", format!("[{:?} at {}].{}", wl, off, name), "a value or None".into(), format!("panic: {}", p));
+                        continue;
+                    }
+                };
+                let readings = want.map(|(ws2, _)| gf_resolve(ws2)).unwrap_or_default();
+                let shown = got.as_ref().map(|g| (g.naive_local().and_utc().timestamp(), g.naive_local().and_utc().timestamp_subsec_nanos(), g.naive_utc().and_utc().timestamp(), g.offset().0));
+                let ok = match (&shown, want) {
+                    (None, None) => true,
+                    (None, Some(_)) => readings.len() != 1,
+                    (Some(_), None) => false,
+                    (Some((lw, ln, gu, go)), Some((ws2, n2))) => *lw == ws2 && *ln == n2 && readings.contains(&(*gu, *go)),
+                };
+                if !ok {
+                    acc.violation(
+                        &format!("DateTime<zone>::{}", name.split('(').next().unwrap()),
+                        format!("[{:?} at offset {}] .{} in a zone with a skipped hour (2021-03-28 02:00-03:00) and a repeated hour (2021-10-31 02:00-03:00)", wl, off, name),
+                        match want {
+                            None => "None (no such date / time)".to_string(),
+                            Some((ws2, n2)) => format!("wall clock {:?} .{:09}: {}", DateTime::from_timestamp(ws2, 0).unwrap().naive_utc(), n2, match readings.len() { 0 => "skipped, so None".to_string(), 1 => format!("its one reading at offset {}", readings[0].1), _ => "repeated: None or either reading".to_string() }),
+                        },
+                        format!("{:?}", got.map(|g| (g.naive_local(), g.offset().0))),
+                    );
+                } else {
+                    match (want.is_some(), readings.len()) {
+                        (true, 0) => acc.hit_nt(Z_GAP),
+                        (true, 2) => acc.hit_nt(Z_FOLD),
+                        (true, _) => acc.hit(Z_SINGLE),
+                        _ => {}
+                    }
+                }
+            }
+        }
+    }
+}
+
 fn pairs(acc: &mut Acc, a: Rd, oa: i32, others: &[(Rd, i32)]) {
     let da = FixedOffset::east_opt(oa).unwrap().from_utc_datetime(&mk_ndt(a.0, a.1, a.2));
     for &(b, ob) in others {
@@ -385,8 +554,8 @@ fn main() {
     let spec = Spec {
         property: "C04",
         classes: CLASSES,
-        required: &["built_from_utc", "built_from_local", "local_refused", "headroom_reading", "replace_ok", "replace_none", "replace_out_of_range", "headroom_either", "step_ok", "step_none", "with_time_refused", "pair_equal_instants", "pair_ordered", "hash_equal"],
-        rule: "state = (UTC date-time, offset); UTC from boundary dates x boundary times (incl. leap) and every boundary second of the first and last two days of the range; offsets from the boundary subset (quick) / every whole minute on boundary dates and every second of (-24h, 24h) at the range ends (thorough); per state: both constructions and both readings, conversions, ==/cmp/Hash against the same instant elsewhere, all accessors and a formatted wall clock (also in the one-day headroom), then ONE step of every with_* (in-domain and alias arguments), with_time, +-Days and +-Months with the result judged on the wall clock; pairs of states for order and hash; non-trivial = refusal, headroom reading, out-of-range result",
+        required: &["zone_gap_refused", "zone_fold_either", "zone_single", "built_from_utc", "built_from_local", "local_refused", "headroom_reading", "replace_ok", "replace_none", "replace_out_of_range", "headroom_either", "step_ok", "step_none", "with_time_refused", "pair_equal_instants", "pair_ordered", "hash_equal"],
+        rule: "state = (UTC date-time, offset); UTC from boundary dates x boundary times (incl. leap) and every boundary second of the first and last two days of the range; offsets from the boundary subset (quick) / every whole minute on boundary dates and every second of (-24h, 24h) at the range ends (thorough); per state: both constructions and both readings, conversions, ==/cmp/Hash against the same instant elsewhere, all accessors and a formatted wall clock (also in the one-day headroom), then ONE step of every with_* (in-domain and alias arguments), with_time, +-Days and +-Months with the result judged on the wall clock; pairs of states for order and hash; a custom TimeZone with one skipped and one repeated hour: from states around both (and days / months away from them) one step of every replacement and calendar step, judged on the wall clock and on the zone's readings of it; non-trivial = refusal, headroom reading, out-of-range result",
         assumptions: &["a non-zero step / replacement whose target wall-clock date lies in the one-day headroom may answer either way; if it answers Some the value is checked", "date_naive()/naive_local() are documented to panic on headroom readings and are not called there"],
     };
     let tier = args.tier;
@@ -467,6 +636,7 @@ fn main() {
                 pairs(acc, a, oa, &sts[i..]);
             }
             offset_constructors(acc);
+            zone_with_gap_and_fold(acc);
             acc.traces += 1;
         }
     });
